@@ -2,7 +2,7 @@
    impl_<T> of Gen/TlbImpl.v) returns every field with the encoded value and consumes exactly the encoded
    bits and references, for every value encoded as block.tlb prescribes (Spec/BlockTlb.v, Spec/Tlb.v).
 
-   Shape of each of the 87 theorems:  for every value v admitted by the layout spec_<T> (wt), its
+   Shape of the first 87 theorems:  for every value v admitted by the layout spec_<T> (wt), its
    encoding (bits, refs) per the schema (encode), any trailing bits tb and references tr, and any fuel
    above the stated bound, run_type on the cell (bits ++ tb, refs ++ tr) returns v and the slice (tb, tr).
    Each is an instance of Proofs/TlbProofs.v: compile_correct (generic, proved once) transferred to the
@@ -12,14 +12,22 @@
    Dictionary-valued fields (HashmapE n X) are covered: a non-empty dictionary is encoded as the
    canonical Patricia tree of Spec/Hashmap.v with the reference label kinds (the value must fit the cell
    limits, which [encode] checks).  Not covered: addr_var addresses (not representable in the model).
-   Types of Spec/BlockTlb.v whose layout refers to a type outside spec_table (Transaction, MessageAny,
-   ValidatorSet, WorkchainDescr, GasLimitsPrices, ConsensusConfig, JettonBridgeParams, WalletMessage) have the tree
-   equality (TlbProofs.impl_<T>_is_spec) but no theorem here:
-   TransactionSplitInstall, TransactionMergeInstall, MsgEnvelope, ConfigParam32, ConfigParam33,
-   ConfigParam34, ConfigParam35, ConfigParam36, ConfigParam37, ConfigParam12, ConfigParam20,
-   ConfigParam21, ConfigParam29, ConfigParam79, ConfigParam81, ConfigParam82, HighloadWalletData.
+
+   The second part of the file (after NftItemSaleData) covers the types that need more of the layout
+   language: ShardAccount and Transaction (the object keeps the cell it was parsed from), ValidatorSet
+   (inline Hashmap), TransactionDescr / CommonMsgInfo / InMsg (dispatch on a tag read in pieces or only
+   looked at), MessageAny (Either fields, inline Any body), MsgEnvelope, TransactionSplitInstall,
+   TransactionMergeInstall, ConfigParam32..37; their statements are explained there.
+
+   Types of Spec/BlockTlb.v whose layout refers to a type outside spec_table (WorkchainDescr,
+   GasLimitsPrices, ConsensusConfig, JettonBridgeParams, WalletMessage) have the tree equality
+   (TlbProofs.impl_<T>_is_spec) but no theorem here: ConfigParam12, ConfigParam20, ConfigParam21, ConfigParam29,
+   ConfigParam79, ConfigParam81, ConfigParam82, HighloadWalletData.
+   AccountBlock (inline HashmapAug): C16_AccountBlock at the end of the file.
+   ShardAccounts (HashmapAugE): tree equality only (TlbProofs.impl_ShardAccounts_is_spec): the library never reads
+   the top-level extra of a HashmapAugE (ShardAccounts_extra_unread).
    Findings (tree <> compilation of the faithful layout; TlbProofs.impl_<T>_differs):
-   WorkchainFormat 0 / 1, JettonBridgeParams. *)
+   WorkchainFormat 0 / 1, JettonBridgeParams.  (ValueFlow: repaired in the library, see C16_ValueFlow.) *)
 From Coq Require Import NArith ZArith List Bool String.
 From PTQ Require Import Base.Result Model.Cell Model.Builder Model.Dtree Spec.Tlb Spec.BlockTlb Gen.TlbImpl
   Proofs.TlbProofs.
@@ -27,7 +35,10 @@ Import ListNotations.
 Local Open Scope Z_scope.
 
 (* well-typedness of a closed value, by computation *)
-Local Ltac wt_tac := vm_compute; repeat split; try reflexivity; try discriminate.
+(* (simple refine: [split] re-checks the whole remaining conjunction at every step) *)
+Local Ltac wt_tac :=
+  vm_compute; repeat match goal with |- _ /\ _ => simple refine (conj _ _) end;
+  try exact I; try exact eq_refl; try discriminate.
 
 (* ---- AccStatusChange ---- *)
 Theorem C16_AccStatusChange : forall v tb tr bits refs fuel,
@@ -2069,3 +2080,563 @@ Example C16_NftItemSaleData_ex :
   | Err _ => False
   end.
 Proof. split; [wt_tac|vm_compute; reflexivity]. Qed.
+
+(* ================================================================================================ *)
+(* Types with a snapshot of their cell, inline dictionaries, dispatch on a tag, Either / Any fields   *)
+(*                                                                                                    *)
+(* Shape of the theorems below.  ch : pv -> bool tells, for every value stored in an `Either X Y`     *)
+(* field, which alternative the encoder uses (the Python object does not record it): the theorems     *)
+(* hold for EVERY such choice.  wt_in ch spec_table L cx v: v is a value of the layout, cx being what *)
+(* v knows of what follows it in its cell: None (nothing: v has neither an inline `Any` field nor a   *)
+(* snapshot at top level), or Some (tb, tr) (exactly the bits tb and references tr: an inline body IS *)
+(* the cell (tb, tr); the snapshot attribute `cell` IS the cell parsed).  All cells are ordinary.     *)
+(* ================================================================================================ *)
+
+Definition ex_tail_bits : list bool := [true; false].
+Definition ex_tail_refs : list cell := [Cell (-1) [] []].
+(* fill in the snapshot attribute of a value built by mk: the encoding does not depend on it *)
+Definition with_cell (ch : pv -> bool) (L : tlayout) (mk : cell -> pv) (tb : list bool) (tr : list cell) : pv :=
+  match encode_ch ch spec_table L (mk (Cell (-1) [] [])) with
+  | Ok (b, r) => mk (Cell (-1) (b ++ tb) (r ++ tr))
+  | Err _ => PNone
+  end.
+Definition bytes32 : list N :=
+  [7%N; 14%N; 21%N; 28%N; 35%N; 42%N; 49%N; 56%N; 63%N; 70%N; 77%N; 84%N; 91%N; 98%N; 105%N; 112%N; 119%N;
+   126%N; 133%N; 140%N; 147%N; 154%N; 161%N; 168%N; 175%N; 182%N; 189%N; 196%N; 203%N; 210%N; 217%N; 224%N].
+
+(* ---- ShardAccount ---- *)
+Theorem C16_ShardAccount : forall ch v tb tr bits refs fuel,
+  wt_in ch spec_table spec_ShardAccount (Some (tb, tr)) v ->
+  encode_ch ch spec_table spec_ShardAccount v = Ok (bits, refs) -> (89 <= fuel)%nat ->
+  run_type impl_table fuel "ShardAccount" [] (Cell (-1) (bits ++ tb) (refs ++ tr)) = Ok (v, mkS tb tr).
+Proof.
+  intros ch v tb tr bits refs fuel Hwt Henc Hfuel.
+  exact (C16_generic_ch "ShardAccount" spec_ShardAccount 89 eq_refl eq_refl ch (Some (tb, tr)) v tb tr bits refs fuel
+           Hwt Henc eq_refl Hfuel).
+Qed.
+Print Assumptions C16_ShardAccount.
+(* ... and the attribute `cell` of such a value is the cell it was parsed from *)
+Corollary C16_ShardAccount_cell : forall ch v tb tr bits refs,
+  wt_in ch spec_table spec_ShardAccount (Some (tb, tr)) v ->
+  encode_ch ch spec_table spec_ShardAccount v = Ok (bits, refs) ->
+  field_of v "cell" = PCell (Cell (-1) (bits ++ tb) (refs ++ tr)).
+Proof. intros ch v tb tr bits refs. exact (wt_snapshot ch spec_table spec_ShardAccount tb tr v "cell" bits refs eq_refl). Qed.
+Print Assumptions C16_ShardAccount_cell.
+
+Definition mk_ShardAccount (c : cell) : pv :=
+  PObj "ShardAccount" [("account"%string, ex_Account); ("cell"%string, PCell c);
+    ("last_trans_hash"%string, PBytes bytes32); ("last_trans_lt"%string, PInt 350686)].
+Definition ex_ShardAccount : pv :=
+  Eval vm_compute in with_cell ch_ref spec_ShardAccount mk_ShardAccount ex_tail_bits ex_tail_refs.
+Example C16_ShardAccount_ex :
+  wt_in ch_ref spec_table spec_ShardAccount (Some (ex_tail_bits, ex_tail_refs)) ex_ShardAccount /\
+  match encode_ch ch_ref spec_table spec_ShardAccount ex_ShardAccount with
+  | Ok (bits, refs) =>
+      run_type impl_table 89 "ShardAccount" [] (Cell (-1) (bits ++ ex_tail_bits) (refs ++ ex_tail_refs))
+      = Ok (ex_ShardAccount, mkS ex_tail_bits ex_tail_refs)
+      /\ field_of ex_ShardAccount "cell" = PCell (Cell (-1) (bits ++ ex_tail_bits) (refs ++ ex_tail_refs))
+  | Err _ => False
+  end.
+Proof. split; [wt_tac|vm_compute; split; reflexivity]. Qed.
+
+(* ---- ValidatorSet (validators#11 with its inline Hashmap, validators_ext#12) ---- *)
+Theorem C16_ValidatorSet : forall v tb tr bits refs fuel,
+  wt spec_table spec_ValidatorSet v -> encode spec_table spec_ValidatorSet v = Ok (bits, refs) -> (123 <= fuel)%nat ->
+  run_type impl_table fuel "ValidatorSet" [] (Cell (-1) (bits ++ tb) (refs ++ tr)) = Ok (v, mkS tb tr).
+Proof. exact (C16_generic "ValidatorSet" spec_ValidatorSet 123 eq_refl eq_refl). Qed.
+Print Assumptions C16_ValidatorSet.
+
+Definition ex_ValidatorDescr_plain : pv :=
+  PObj "ValidatorDescr" [("adnl_addr"%string, PNone); ("public_key"%string, PObj "SigPubKey"
+    [("pubkey"%string, PBytes bytes32)]); ("type_"%string, PStr "validator"); ("weight"%string, PInt 17)].
+(* validators_ext#12: three validators behind a HashmapE *)
+Definition ex_ValidatorSet : pv :=
+  PObj "ValidatorSet" [("list"%string, PDict [(0, ex_ValidatorDescr); (1, ex_ValidatorDescr_plain); (2, ex_ValidatorDescr)]);
+    ("main"%string, PInt 2); ("total"%string, PInt 3); ("total_weight"%string, PInt 701389);
+    ("type_"%string, PStr "validators_ext"); ("utime_since"%string, PInt 954413); ("utime_until"%string, PInt 954513)].
+(* validators#11: the Hashmap inline, with a fork at the root *)
+Definition ex_ValidatorSet_11 : pv :=
+  PObj "ValidatorSet" [("list"%string, PDict [(0, ex_ValidatorDescr); (1, ex_ValidatorDescr_plain); (2, ex_ValidatorDescr)]);
+    ("main"%string, PInt 2); ("total"%string, PInt 3); ("total_weight"%string, PNone);
+    ("type_"%string, PStr "validators"); ("utime_since"%string, PInt 954413); ("utime_until"%string, PInt 954513)].
+(* validators#11 with one validator: the root is a leaf, the value goes on in the same cell *)
+Definition ex_ValidatorSet_11_single : pv :=
+  PObj "ValidatorSet" [("list"%string, PDict [(0, ex_ValidatorDescr)]);
+    ("main"%string, PInt 1); ("total"%string, PInt 1); ("total_weight"%string, PNone);
+    ("type_"%string, PStr "validators"); ("utime_since"%string, PInt 954413); ("utime_until"%string, PInt 954513)].
+Example C16_ValidatorSet_ex :
+  (wt spec_table spec_ValidatorSet ex_ValidatorSet /\
+   match encode spec_table spec_ValidatorSet ex_ValidatorSet with
+   | Ok (bits, refs) =>
+       run_type impl_table 123 "ValidatorSet" [] (Cell (-1) (bits ++ [true; false]) (refs ++ [Cell (-1) [] []]))
+       = Ok (ex_ValidatorSet, mkS [true; false] [Cell (-1) [] []])
+   | Err _ => False
+   end) /\
+  (wt spec_table spec_ValidatorSet ex_ValidatorSet_11 /\
+   match encode spec_table spec_ValidatorSet ex_ValidatorSet_11 with
+   | Ok (bits, refs) =>
+       run_type impl_table 123 "ValidatorSet" [] (Cell (-1) (bits ++ [true; false]) (refs ++ [Cell (-1) [] []]))
+       = Ok (ex_ValidatorSet_11, mkS [true; false] [Cell (-1) [] []])
+   | Err _ => False
+   end) /\
+  (wt spec_table spec_ValidatorSet ex_ValidatorSet_11_single /\
+   match encode spec_table spec_ValidatorSet ex_ValidatorSet_11_single with
+   | Ok (bits, refs) =>
+       run_type impl_table 123 "ValidatorSet" [] (Cell (-1) (bits ++ [true; false]) (refs ++ [Cell (-1) [] []]))
+       = Ok (ex_ValidatorSet_11_single, mkS [true; false] [Cell (-1) [] []])
+   | Err _ => False
+   end).
+Proof. split; [split; [wt_tac|vm_compute; reflexivity]|split; split; [wt_tac|vm_compute; reflexivity|wt_tac|vm_compute; reflexivity]]. Qed.
+
+(* ---- ConfigParam32 .. ConfigParam37 (wrappers of ValidatorSet) ---- *)
+Theorem C16_ConfigParam32 : forall v tb tr bits refs fuel,
+  wt spec_table spec_ConfigParam32 v -> encode spec_table spec_ConfigParam32 v = Ok (bits, refs) -> (128 <= fuel)%nat ->
+  run_type impl_table fuel "ConfigParam32" [] (Cell (-1) (bits ++ tb) (refs ++ tr)) = Ok (v, mkS tb tr).
+Proof. exact (C16_generic "ConfigParam32" spec_ConfigParam32 128 eq_refl eq_refl). Qed.
+Theorem C16_ConfigParam33 : forall v tb tr bits refs fuel,
+  wt spec_table spec_ConfigParam33 v -> encode spec_table spec_ConfigParam33 v = Ok (bits, refs) -> (128 <= fuel)%nat ->
+  run_type impl_table fuel "ConfigParam33" [] (Cell (-1) (bits ++ tb) (refs ++ tr)) = Ok (v, mkS tb tr).
+Proof. exact (C16_generic "ConfigParam33" spec_ConfigParam33 128 eq_refl eq_refl). Qed.
+Theorem C16_ConfigParam34 : forall v tb tr bits refs fuel,
+  wt spec_table spec_ConfigParam34 v -> encode spec_table spec_ConfigParam34 v = Ok (bits, refs) -> (128 <= fuel)%nat ->
+  run_type impl_table fuel "ConfigParam34" [] (Cell (-1) (bits ++ tb) (refs ++ tr)) = Ok (v, mkS tb tr).
+Proof. exact (C16_generic "ConfigParam34" spec_ConfigParam34 128 eq_refl eq_refl). Qed.
+Theorem C16_ConfigParam35 : forall v tb tr bits refs fuel,
+  wt spec_table spec_ConfigParam35 v -> encode spec_table spec_ConfigParam35 v = Ok (bits, refs) -> (128 <= fuel)%nat ->
+  run_type impl_table fuel "ConfigParam35" [] (Cell (-1) (bits ++ tb) (refs ++ tr)) = Ok (v, mkS tb tr).
+Proof. exact (C16_generic "ConfigParam35" spec_ConfigParam35 128 eq_refl eq_refl). Qed.
+Theorem C16_ConfigParam36 : forall v tb tr bits refs fuel,
+  wt spec_table spec_ConfigParam36 v -> encode spec_table spec_ConfigParam36 v = Ok (bits, refs) -> (128 <= fuel)%nat ->
+  run_type impl_table fuel "ConfigParam36" [] (Cell (-1) (bits ++ tb) (refs ++ tr)) = Ok (v, mkS tb tr).
+Proof. exact (C16_generic "ConfigParam36" spec_ConfigParam36 128 eq_refl eq_refl). Qed.
+Theorem C16_ConfigParam37 : forall v tb tr bits refs fuel,
+  wt spec_table spec_ConfigParam37 v -> encode spec_table spec_ConfigParam37 v = Ok (bits, refs) -> (128 <= fuel)%nat ->
+  run_type impl_table fuel "ConfigParam37" [] (Cell (-1) (bits ++ tb) (refs ++ tr)) = Ok (v, mkS tb tr).
+Proof. exact (C16_generic "ConfigParam37" spec_ConfigParam37 128 eq_refl eq_refl). Qed.
+Print Assumptions C16_ConfigParam32.
+Print Assumptions C16_ConfigParam33.
+Print Assumptions C16_ConfigParam34.
+Print Assumptions C16_ConfigParam35.
+Print Assumptions C16_ConfigParam36.
+Print Assumptions C16_ConfigParam37.
+
+Definition ex_ConfigParam34 : pv := PObj "ConfigParam34" [("cur_validators"%string, ex_ValidatorSet)].
+Example C16_ConfigParam34_ex :
+  wt spec_table spec_ConfigParam34 ex_ConfigParam34 /\
+  match encode spec_table spec_ConfigParam34 ex_ConfigParam34 with
+  | Ok (bits, refs) =>
+      run_type impl_table 128 "ConfigParam34" [] (Cell (-1) (bits ++ [true; false]) (refs ++ [Cell (-1) [] []]))
+      = Ok (ex_ConfigParam34, mkS [true; false] [Cell (-1) [] []])
+  | Err _ => False
+  end.
+Proof. split; [wt_tac|vm_compute; reflexivity]. Qed.
+
+(* ---- TransactionDescr (dispatch on the tag; the seven kinds) ---- *)
+Theorem C16_TransactionDescr : forall ch v tb tr bits refs fuel,
+  wt_in ch spec_table spec_TransactionDescr None v ->
+  encode_ch ch spec_table spec_TransactionDescr v = Ok (bits, refs) -> (1441 <= fuel)%nat ->
+  run_type impl_table fuel "TransactionDescr" [] (Cell (-1) (bits ++ tb) (refs ++ tr)) = Ok (v, mkS tb tr).
+Proof.
+  intros ch v tb tr bits refs fuel Hwt Henc Hfuel.
+  exact (C16_generic_ch "TransactionDescr" spec_TransactionDescr 1441 eq_refl eq_refl ch None v tb tr bits refs fuel
+           Hwt Henc I Hfuel).
+Qed.
+Print Assumptions C16_TransactionDescr.
+
+(* one value of each kind that does not embed a transaction (those that do: after Transaction below) *)
+Example C16_TransactionDescr_ex :
+  Forall (fun v =>
+    wt_in ch_ref spec_table spec_TransactionDescr None v /\
+    match encode_ch ch_ref spec_table spec_TransactionDescr v with
+    | Ok (bits, refs) =>
+        run_type impl_table 1441 "TransactionDescr" [] (Cell (-1) (bits ++ [true; false]) (refs ++ [Cell (-1) [] []]))
+        = Ok (v, mkS [true; false] [Cell (-1) [] []])
+    | Err _ => False
+    end)
+    [ex_TransactionOrdinary; ex_TransactionStorage; ex_TransactionTickTock; ex_TransactionSplitPrepare;
+     ex_TransactionMergePrepare].
+Proof. repeat (apply Forall_cons; [split; [wt_tac|vm_compute; reflexivity]|]). apply Forall_nil. Qed.
+
+(* ---- ValueFlow (both tags; the references in field order: ^[group 1], those of fees_collected and of
+   burned, ^[group 2]).  The library used to load both group references first (FINDING, repaired). ---- *)
+Theorem C16_ValueFlow : forall v tb tr bits refs fuel,
+  wt spec_table spec_ValueFlow v -> encode spec_table spec_ValueFlow v = Ok (bits, refs) -> (221 <= fuel)%nat ->
+  run_type impl_table fuel "ValueFlow" [] (Cell (-1) (bits ++ tb) (refs ++ tr)) = Ok (v, mkS tb tr).
+Proof. exact (C16_generic "ValueFlow" spec_ValueFlow 221 eq_refl eq_refl). Qed.
+Print Assumptions C16_ValueFlow.
+
+Definition ex_cc (g : Z) : pv :=
+  PObj "CurrencyCollection" [("grams"%string, PInt g); ("other"%string, PObj "ExtraCurrencyCollection"
+    [("dict"%string, PNone)])].
+Definition ex_cc_extra (g : Z) : pv :=
+  PObj "CurrencyCollection" [("grams"%string, PInt g); ("other"%string, PObj "ExtraCurrencyCollection"
+    [("dict"%string, PDict [(1, PInt 7)])])].
+Definition mk_ValueFlow (fees : pv) : pv :=
+  PObj "ValueFlow" [("created"%string, ex_cc_extra 8); ("exported"%string, ex_cc 4); ("fees_collected"%string, fees);
+    ("fees_imported"%string, ex_cc 6); ("from_prev_blk"%string, ex_cc_extra 1); ("imported"%string, ex_cc 3);
+    ("minted"%string, ex_cc 9); ("recovered"%string, ex_cc 7); ("to_next_blk"%string, ex_cc 2);
+    ("type_"%string, PStr "value_flow")].
+Definition mk_ValueFlow_v2 (fees burned : pv) : pv :=
+  PObj "ValueFlow" [("burned"%string, burned); ("created"%string, ex_cc 8); ("exported"%string, ex_cc_extra 4);
+    ("fees_collected"%string, fees);
+    ("fees_imported"%string, ex_cc 6); ("from_prev_blk"%string, ex_cc 1); ("imported"%string, ex_cc 3);
+    ("minted"%string, ex_cc_extra 9); ("recovered"%string, ex_cc 7); ("to_next_blk"%string, ex_cc 2);
+    ("type_"%string, PStr "value_flow_v2")].
+(* the first two values have extra currencies in fees_collected, respectively in burned: the dictionary root is
+   then the SECOND reference of the cell (three references in all); these are the encodings on which the
+   library used to raise IndexError *)
+Example C16_ValueFlow_ex :
+  Forall (fun v =>
+    wt spec_table spec_ValueFlow v /\
+    match encode spec_table spec_ValueFlow v with
+    | Ok (bits, refs) =>
+        run_type impl_table 221 "ValueFlow" [] (Cell (-1) (bits ++ [true; false]) (refs ++ [Cell (-1) [] []]))
+        = Ok (v, mkS [true; false] [Cell (-1) [] []])
+    | Err _ => False
+    end)
+    [mk_ValueFlow (ex_cc_extra 5); mk_ValueFlow_v2 (ex_cc 5) (ex_cc_extra 6);
+     mk_ValueFlow_v2 (ex_cc_extra 5) (ex_cc_extra 6); mk_ValueFlow (ex_cc 5)].
+Proof. repeat (apply Forall_cons; [split; [wt_tac|vm_compute; reflexivity]|]). apply Forall_nil. Qed.
+Example C16_ValueFlow_ex_refs :
+  match encode spec_table spec_ValueFlow (mk_ValueFlow (ex_cc_extra 5)) with
+  | Ok (_, refs) => List.length refs = 3%nat
+  | Err _ => False
+  end.
+Proof. vm_compute. reflexivity. Qed.
+
+(* an exotic (e.g. pruned) cell: ValueFlow.deserialize returns None and reads nothing *)
+Theorem C16_ValueFlow_exotic : forall ty bits refs fuel, ty <> (-1) -> (4 <= fuel)%nat ->
+  run_type impl_table fuel "ValueFlow" [] (Cell ty bits refs) = Ok (PNone, mkS bits refs).
+Proof. intros ty bits refs fuel. exact (run_type_exotic "ValueFlow" spec_ValueFlow ty bits refs fuel eq_refl). Qed.
+Print Assumptions C16_ValueFlow_exotic.
+
+(* ---- CommonMsgInfo (the tag is only looked at; the three kinds) ---- *)
+Theorem C16_CommonMsgInfo : forall v tb tr bits refs fuel,
+  wt spec_table spec_CommonMsgInfo v -> encode spec_table spec_CommonMsgInfo v = Ok (bits, refs) -> (44 <= fuel)%nat ->
+  run_type impl_table fuel "CommonMsgInfo" [] (Cell (-1) (bits ++ tb) (refs ++ tr)) = Ok (v, mkS tb tr).
+Proof. exact (C16_generic "CommonMsgInfo" spec_CommonMsgInfo 44 eq_refl eq_refl). Qed.
+Print Assumptions C16_CommonMsgInfo.
+
+Example C16_CommonMsgInfo_ex :
+  Forall (fun v =>
+    wt spec_table spec_CommonMsgInfo v /\
+    match encode spec_table spec_CommonMsgInfo v with
+    | Ok (bits, refs) =>
+        run_type impl_table 44 "CommonMsgInfo" [] (Cell (-1) (bits ++ [true; false]) (refs ++ [Cell (-1) [] []]))
+        = Ok (v, mkS [true; false] [Cell (-1) [] []])
+    | Err _ => False
+    end)
+    [ex_InternalMsgInfo; ex_ExternalMsgInfo; ex_ExternalOutMsgInfo].
+Proof. repeat (apply Forall_cons; [split; [wt_tac|vm_compute; reflexivity]|]). apply Forall_nil. Qed.
+
+(* ---- MessageAny = Message Any ---- *)
+(* For every choice ch of the Either alternatives (init inline or ^StateInit, body inline or ^Cell).  A
+   body stored inline is of type Any: it is what follows the header, so the value's `body` is the cell
+   (tb, tr) and cx = Some (tb, tr); with the body in a reference, anything may follow (cx = None or Some). *)
+Theorem C16_MessageAny : forall ch cx v tb tr bits refs fuel,
+  wt_in ch spec_table spec_MessageAny cx v -> encode_ch ch spec_table spec_MessageAny v = Ok (bits, refs) ->
+  ctx_ok cx tb tr -> (83 <= fuel)%nat ->
+  run_type impl_table fuel "MessageAny" [] (Cell (-1) (bits ++ tb) (refs ++ tr)) = Ok (v, mkS tb tr).
+Proof. exact (C16_generic_ch "MessageAny" spec_MessageAny 83 eq_refl eq_refl). Qed.
+Print Assumptions C16_MessageAny.
+
+(* which alternative: cells whose data begins with a 1 inline, the other cells and the StateInit objects
+   in a reference *)
+Definition ch_mix (x : pv) : bool :=
+  match x with PCell (Cell _ (true :: _) _) => false | _ => true end.
+Definition ch_inline : pv -> bool := fun _ => false.
+
+(* everything inline: the body is the tail of the cell *)
+Definition ex_MessageAny_inline : pv :=
+  PObj "MessageAny" [("body"%string, PCell (Cell (-1) ex_tail_bits ex_tail_refs)); ("info"%string, ex_InternalMsgInfo);
+    ("init"%string, ex_StateInit)].
+(* everything in references, no tail known *)
+Definition ex_MessageAny_refs : pv :=
+  PObj "MessageAny" [("body"%string, PCell (Cell (-1) [false; true; true] [Cell (-1) [true] []]));
+    ("info"%string, ex_ExternalMsgInfo); ("init"%string, ex_StateInit)].
+(* no init, body in a reference *)
+Definition ex_MessageAny_out : pv :=
+  PObj "MessageAny" [("body"%string, PCell (Cell (-1) [false; true] [])); ("info"%string, ex_ExternalOutMsgInfo);
+    ("init"%string, PNone)].
+Example C16_MessageAny_ex :
+  (wt_in ch_inline spec_table spec_MessageAny (Some (ex_tail_bits, ex_tail_refs)) ex_MessageAny_inline /\
+   match encode_ch ch_inline spec_table spec_MessageAny ex_MessageAny_inline with
+   | Ok (bits, refs) =>
+       run_type impl_table 83 "MessageAny" [] (Cell (-1) (bits ++ ex_tail_bits) (refs ++ ex_tail_refs))
+       = Ok (ex_MessageAny_inline, mkS ex_tail_bits ex_tail_refs)
+   | Err _ => False
+   end) /\
+  (wt_in ch_ref spec_table spec_MessageAny None ex_MessageAny_refs /\
+   match encode_ch ch_ref spec_table spec_MessageAny ex_MessageAny_refs with
+   | Ok (bits, refs) =>
+       run_type impl_table 83 "MessageAny" [] (Cell (-1) (bits ++ ex_tail_bits) (refs ++ ex_tail_refs))
+       = Ok (ex_MessageAny_refs, mkS ex_tail_bits ex_tail_refs)
+   | Err _ => False
+   end) /\
+  (wt_in ch_mix spec_table spec_MessageAny None ex_MessageAny_out /\
+   match encode_ch ch_mix spec_table spec_MessageAny ex_MessageAny_out with
+   | Ok (bits, refs) =>
+       run_type impl_table 83 "MessageAny" [] (Cell (-1) (bits ++ ex_tail_bits) (refs ++ ex_tail_refs))
+       = Ok (ex_MessageAny_out, mkS ex_tail_bits ex_tail_refs)
+   | Err _ => False
+   end).
+Proof. split; [split; [wt_tac|vm_compute; reflexivity]|split; split; [wt_tac|vm_compute; reflexivity|wt_tac|vm_compute; reflexivity]]. Qed.
+
+(* ---- MsgEnvelope (msg:^(Message Any): the cell of the message ends with its inline body) ---- *)
+Theorem C16_MsgEnvelope : forall ch v tb tr bits refs fuel,
+  wt_in ch spec_table spec_MsgEnvelope None v -> encode_ch ch spec_table spec_MsgEnvelope v = Ok (bits, refs) ->
+  (141 <= fuel)%nat ->
+  run_type impl_table fuel "MsgEnvelope" [] (Cell (-1) (bits ++ tb) (refs ++ tr)) = Ok (v, mkS tb tr).
+Proof.
+  intros ch v tb tr bits refs fuel Hwt Henc Hfuel.
+  exact (C16_generic_ch "MsgEnvelope" spec_MsgEnvelope 141 eq_refl eq_refl ch None v tb tr bits refs fuel Hwt Henc I Hfuel).
+Qed.
+Print Assumptions C16_MsgEnvelope.
+
+(* a message behind a reference: body inline (begins with 1), init in a reference *)
+Definition ex_MessageAny_in : pv :=
+  PObj "MessageAny" [("body"%string, PCell (Cell (-1) [true; true; false; true] [Cell (-1) [false] []]));
+    ("info"%string, ex_InternalMsgInfo); ("init"%string, ex_StateInit)].
+Definition ex_MsgEnvelope : pv :=
+  PObj "MsgEnvelope" [("cur_addr"%string, ex_IntermediateAddress); ("emitted_lt"%string, PInt 350686);
+    ("fwd_fee_remaining"%string, PInt 1000000007); ("metadata"%string, ex_MsgMetadata);
+    ("msg"%string, ex_MessageAny_in); ("next_addr"%string, ex_IntermediateAddress);
+    ("type_"%string, PStr "msg_envelope_v2")].
+Definition ex_MsgEnvelope_v1 : pv :=
+  PObj "MsgEnvelope" [("cur_addr"%string, ex_IntermediateAddress); ("emitted_lt"%string, PNone);
+    ("fwd_fee_remaining"%string, PInt 1000000007); ("metadata"%string, PNone);
+    ("msg"%string, ex_MessageAny_out); ("next_addr"%string, ex_IntermediateAddress);
+    ("type_"%string, PStr "msg_envelope")].
+Example C16_MsgEnvelope_ex :
+  Forall (fun v =>
+    wt_in ch_mix spec_table spec_MsgEnvelope None v /\
+    match encode_ch ch_mix spec_table spec_MsgEnvelope v with
+    | Ok (bits, refs) =>
+        run_type impl_table 141 "MsgEnvelope" [] (Cell (-1) (bits ++ [true; false]) (refs ++ [Cell (-1) [] []]))
+        = Ok (v, mkS [true; false] [Cell (-1) [] []])
+    | Err _ => False
+    end)
+    [ex_MsgEnvelope; ex_MsgEnvelope_v1].
+Proof. repeat (apply Forall_cons; [split; [wt_tac|vm_compute; reflexivity]|]). apply Forall_nil. Qed.
+
+(* ---- Transaction ---- *)
+(* v keeps under `cell` the cell it is parsed from (bits ++ tb, refs ++ tr) and under `out_msgs` the list of
+   the outbound messages, encoded as the dictionary HashmapE 15 ^(Message Any) with the keys 0, 1, 2, ... *)
+Theorem C16_Transaction : forall ch v tb tr bits refs fuel,
+  wt_in ch spec_table spec_Transaction (Some (tb, tr)) v ->
+  encode_ch ch spec_table spec_Transaction v = Ok (bits, refs) -> (1569 <= fuel)%nat ->
+  run_type impl_table fuel "Transaction" [] (Cell (-1) (bits ++ tb) (refs ++ tr)) = Ok (v, mkS tb tr).
+Proof.
+  intros ch v tb tr bits refs fuel Hwt Henc Hfuel.
+  exact (C16_generic_ch "Transaction" spec_Transaction 1569 eq_refl eq_refl ch (Some (tb, tr)) v tb tr bits refs fuel
+           Hwt Henc eq_refl Hfuel).
+Qed.
+Print Assumptions C16_Transaction.
+Corollary C16_Transaction_cell : forall ch v tb tr bits refs,
+  wt_in ch spec_table spec_Transaction (Some (tb, tr)) v ->
+  encode_ch ch spec_table spec_Transaction v = Ok (bits, refs) ->
+  field_of v "cell" = PCell (Cell (-1) (bits ++ tb) (refs ++ tr)).
+Proof. intros ch v tb tr bits refs. exact (wt_snapshot ch spec_table spec_Transaction tb tr v "cell" bits refs eq_refl). Qed.
+Print Assumptions C16_Transaction_cell.
+
+Definition mk_Transaction (in_msg out_msgs descr : pv) (cnt : Z) (c : cell) : pv :=
+  PObj "Transaction" [("account_addr"%string, PBytes bytes32); ("account_addr_hex"%string, PHex bytes32);
+    ("cell"%string, PCell c); ("description"%string, descr); ("end_status"%string, ex_AccountStatus);
+    ("in_msg"%string, in_msg); ("lt"%string, PInt 350686); ("now"%string, PInt 954413);
+    ("orig_status"%string, ex_AccountStatus); ("out_msgs"%string, out_msgs); ("outmsg_cnt"%string, PInt cnt);
+    ("prev_trans_hash"%string, PBytes bytes32); ("prev_trans_lt"%string, PInt 350685);
+    ("state_update"%string, ex_HashUpdate); ("total_fees"%string, ex_CurrencyCollection)].
+(* an inbound message, two outbound messages, an ordinary description *)
+Definition ex_Transaction : pv :=
+  Eval vm_compute in with_cell ch_mix spec_Transaction
+    (mk_Transaction ex_MessageAny_in (PList [ex_MessageAny_out; ex_MessageAny_in]) ex_TransactionOrdinary 2)
+    ex_tail_bits ex_tail_refs.
+(* no inbound message, no outbound message, a tick-tock description *)
+Definition ex_Transaction_bare : pv :=
+  Eval vm_compute in with_cell ch_mix spec_Transaction (mk_Transaction PNone (PList []) ex_TransactionTickTock 0) ex_tail_bits ex_tail_refs.
+Example C16_Transaction_ex :
+  Forall (fun v =>
+    wt_in ch_mix spec_table spec_Transaction (Some (ex_tail_bits, ex_tail_refs)) v /\
+    match encode_ch ch_mix spec_table spec_Transaction v with
+    | Ok (bits, refs) =>
+        run_type impl_table 1569 "Transaction" [] (Cell (-1) (bits ++ ex_tail_bits) (refs ++ ex_tail_refs))
+        = Ok (v, mkS ex_tail_bits ex_tail_refs)
+        /\ field_of v "cell" = PCell (Cell (-1) (bits ++ ex_tail_bits) (refs ++ ex_tail_refs))
+    | Err _ => False
+    end)
+    [ex_Transaction; ex_Transaction_bare].
+Proof. repeat (apply Forall_cons; [split; [wt_tac|vm_compute; split; reflexivity]|]). apply Forall_nil. Qed.
+
+(* an exotic (e.g. pruned) cell: Transaction.deserialize returns the cell itself and reads nothing *)
+Theorem C16_Transaction_exotic : forall ty bits refs fuel, ty <> (-1) -> (4 <= fuel)%nat ->
+  run_type impl_table fuel "Transaction" [] (Cell ty bits refs) = Ok (PCell (Cell ty bits refs), mkS bits refs).
+Proof. intros ty bits refs fuel. exact (run_type_exotic "Transaction" spec_Transaction ty bits refs fuel eq_refl). Qed.
+Print Assumptions C16_Transaction_exotic.
+
+(* ---- TransactionSplitInstall, TransactionMergeInstall (prepare_transaction:^Transaction) ---- *)
+Theorem C16_TransactionSplitInstall : forall ch v tb tr bits refs fuel,
+  wt_in ch spec_table spec_TransactionSplitInstall None v ->
+  encode_ch ch spec_table spec_TransactionSplitInstall v = Ok (bits, refs) -> (1432 <= fuel)%nat ->
+  run_type impl_table fuel "TransactionSplitInstall" [] (Cell (-1) (bits ++ tb) (refs ++ tr)) = Ok (v, mkS tb tr).
+Proof.
+  intros ch v tb tr bits refs fuel Hwt Henc Hfuel.
+  exact (C16_generic_ch "TransactionSplitInstall" spec_TransactionSplitInstall 1432 eq_refl eq_refl ch None v tb tr
+           bits refs fuel Hwt Henc I Hfuel).
+Qed.
+Theorem C16_TransactionMergeInstall : forall ch v tb tr bits refs fuel,
+  wt_in ch spec_table spec_TransactionMergeInstall None v ->
+  encode_ch ch spec_table spec_TransactionMergeInstall v = Ok (bits, refs) -> (1545 <= fuel)%nat ->
+  run_type impl_table fuel "TransactionMergeInstall" [] (Cell (-1) (bits ++ tb) (refs ++ tr)) = Ok (v, mkS tb tr).
+Proof.
+  intros ch v tb tr bits refs fuel Hwt Henc Hfuel.
+  exact (C16_generic_ch "TransactionMergeInstall" spec_TransactionMergeInstall 1545 eq_refl eq_refl ch None v tb tr
+           bits refs fuel Hwt Henc I Hfuel).
+Qed.
+Print Assumptions C16_TransactionSplitInstall.
+Print Assumptions C16_TransactionMergeInstall.
+
+(* a transaction alone in its cell (behind a reference) *)
+Definition ex_Transaction_ref : pv :=
+  Eval vm_compute in with_cell ch_mix spec_Transaction
+    (mk_Transaction ex_MessageAny_in (PList [ex_MessageAny_out]) ex_TransactionStorage 1) [] [].
+Definition ex_TransactionSplitInstall : pv :=
+  PObj "TransactionSplitInstall" [("installed"%string, PBool true); ("prepare_transaction"%string, ex_Transaction_ref);
+    ("split_info"%string, ex_SplitMergeInfo); ("type_"%string, PStr "split_install")].
+Definition ex_TransactionMergeInstall : pv :=
+  PObj "TransactionMergeInstall" [("aborted"%string, PBool true); ("action"%string, ex_TrActionPhase);
+    ("compute_ph"%string, ex_TrComputePhase); ("credit_ph"%string, ex_TrCreditPhase); ("destroyed"%string, PBool false);
+    ("prepare_transaction"%string, ex_Transaction_ref); ("split_info"%string, ex_SplitMergeInfo);
+    ("storage_ph"%string, ex_TrStoragePhase); ("type_"%string, PStr "merge_install")].
+Example C16_TransactionSplitInstall_ex :
+  wt_in ch_mix spec_table spec_TransactionSplitInstall None ex_TransactionSplitInstall /\
+  match encode_ch ch_mix spec_table spec_TransactionSplitInstall ex_TransactionSplitInstall with
+  | Ok (bits, refs) =>
+      run_type impl_table 1432 "TransactionSplitInstall" [] (Cell (-1) (bits ++ [true; false]) (refs ++ [Cell (-1) [] []]))
+      = Ok (ex_TransactionSplitInstall, mkS [true; false] [Cell (-1) [] []])
+  | Err _ => False
+  end.
+Proof. split; [wt_tac|vm_compute; reflexivity]. Qed.
+Example C16_TransactionMergeInstall_ex :
+  wt_in ch_mix spec_table spec_TransactionMergeInstall None ex_TransactionMergeInstall /\
+  match encode_ch ch_mix spec_table spec_TransactionMergeInstall ex_TransactionMergeInstall with
+  | Ok (bits, refs) =>
+      run_type impl_table 1545 "TransactionMergeInstall" [] (Cell (-1) (bits ++ [true; false]) (refs ++ [Cell (-1) [] []]))
+      = Ok (ex_TransactionMergeInstall, mkS [true; false] [Cell (-1) [] []])
+  | Err _ => False
+  end.
+Proof. split; [wt_tac|vm_compute; reflexivity]. Qed.
+(* the two remaining kinds of TransactionDescr *)
+Example C16_TransactionDescr_ex2 :
+  Forall (fun v =>
+    wt_in ch_mix spec_table spec_TransactionDescr None v /\
+    match encode_ch ch_mix spec_table spec_TransactionDescr v with
+    | Ok (bits, refs) =>
+        run_type impl_table 1441 "TransactionDescr" [] (Cell (-1) (bits ++ [true; false]) (refs ++ [Cell (-1) [] []]))
+        = Ok (v, mkS [true; false] [Cell (-1) [] []])
+    | Err _ => False
+    end)
+    [ex_TransactionSplitInstall; ex_TransactionMergeInstall].
+Proof. repeat (apply Forall_cons; [split; [wt_tac|vm_compute; reflexivity]|]). apply Forall_nil. Qed.
+
+(* ---- InMsg (all nine constructors) ---- *)
+Theorem C16_InMsg : forall ch v tb tr bits refs fuel,
+  wt_in ch spec_table spec_InMsg None v -> encode_ch ch spec_table spec_InMsg v = Ok (bits, refs) ->
+  (1578 <= fuel)%nat ->
+  run_type impl_table fuel "InMsg" [] (Cell (-1) (bits ++ tb) (refs ++ tr)) = Ok (v, mkS tb tr).
+Proof.
+  intros ch v tb tr bits refs fuel Hwt Henc Hfuel.
+  exact (C16_generic_ch "InMsg" spec_InMsg 1578 eq_refl eq_refl ch None v tb tr bits refs fuel Hwt Henc I Hfuel).
+Qed.
+Print Assumptions C16_InMsg.
+
+Definition ex_InMsg_ext : pv :=
+  PObj "InMsg" [("in_msg"%string, PNone); ("msg"%string, ex_MessageAny_in); ("transaction"%string, ex_Transaction_ref);
+    ("type_"%string, PStr "msg_import_ext")].
+Definition ex_InMsg_ihr : pv :=
+  PObj "InMsg" [("ihr_fee"%string, PInt 1000000007); ("in_msg"%string, PNone); ("msg"%string, ex_MessageAny_out);
+    ("proof_created"%string, PCell (Cell (-1) [true; false; true] [])); ("transaction"%string, ex_Transaction_ref);
+    ("type_"%string, PStr "msg_import_ihr")].
+Definition ex_InMsg_imm : pv :=
+  PObj "InMsg" [("fwd_fee"%string, PInt 1000000007); ("in_msg"%string, ex_MsgEnvelope); ("msg"%string, PNone);
+    ("transaction"%string, ex_Transaction_ref); ("type_"%string, PStr "msg_import_imm")].
+Definition ex_InMsg_fin : pv :=
+  PObj "InMsg" [("fwd_fee"%string, PInt 1000000007); ("in_msg"%string, ex_MsgEnvelope_v1); ("msg"%string, PNone);
+    ("transaction"%string, ex_Transaction_ref); ("type_"%string, PStr "msg_import_fin")].
+Definition ex_InMsg_tr : pv :=
+  PObj "InMsg" [("in_msg"%string, ex_MsgEnvelope); ("msg"%string, PNone); ("out_msg"%string, ex_MsgEnvelope_v1);
+    ("transaction"%string, PNone); ("transit_fee"%string, PInt 300); ("type_"%string, PStr "msg_import_tr")].
+Definition ex_InMsg_discard_fin : pv :=
+  PObj "InMsg" [("fwd_fee"%string, PInt 300); ("in_msg"%string, ex_MsgEnvelope); ("msg"%string, PNone);
+    ("transaction"%string, PNone); ("transaction_id"%string, PInt 350686); ("type_"%string, PStr "msg_discard_fin")].
+Definition ex_InMsg_discard_tr : pv :=
+  PObj "InMsg" [("fwd_fee"%string, PInt 300); ("in_msg"%string, ex_MsgEnvelope); ("msg"%string, PNone);
+    ("proof_delivered"%string, PCell (Cell (-1) [true; false; true] [])); ("transaction"%string, PNone);
+    ("transaction_id"%string, PInt 350686); ("type_"%string, PStr "msg_discard_tr")].
+Definition ex_InMsg_deferred_fin : pv :=
+  PObj "InMsg" [("fwd_fee"%string, PInt 1000000007); ("in_msg"%string, ex_MsgEnvelope); ("msg"%string, PNone);
+    ("transaction"%string, ex_Transaction_ref); ("type_"%string, PStr "msg_import_deferred_fin")].
+Definition ex_InMsg_deferred_tr : pv :=
+  PObj "InMsg" [("in_msg"%string, ex_MsgEnvelope); ("msg"%string, PNone); ("out_msg"%string, ex_MsgEnvelope_v1);
+    ("transaction"%string, PNone); ("type_"%string, PStr "msg_import_deferred_tr")].
+Example C16_InMsg_ex :
+  Forall (fun v =>
+    wt_in ch_mix spec_table spec_InMsg None v /\
+    match encode_ch ch_mix spec_table spec_InMsg v with
+    | Ok (bits, refs) =>
+        run_type impl_table 1578 "InMsg" [] (Cell (-1) (bits ++ [true; false]) (refs ++ [Cell (-1) [] []]))
+        = Ok (v, mkS [true; false] [Cell (-1) [] []])
+    | Err _ => False
+    end)
+    [ex_InMsg_ext; ex_InMsg_ihr; ex_InMsg_imm; ex_InMsg_fin; ex_InMsg_tr; ex_InMsg_discard_fin; ex_InMsg_discard_tr;
+     ex_InMsg_deferred_fin; ex_InMsg_deferred_tr].
+Proof. repeat (apply Forall_cons; [split; [wt_tac|vm_compute; reflexivity]|]). apply Forall_nil. Qed.
+
+(* ---- AccountBlock (transactions:(HashmapAug 64 ^Transaction CurrencyCollection), inline) ---- *)
+(* v keeps under `transactions` the pair parse_hashmap_aug returns: PAugDict kvs extras, kvs the transactions
+   by ascending 64-bit key, extras the CurrencyCollection of EVERY node of the Patricia tree of the keys in
+   the order the nodes are visited (left subtree, right subtree, then the fork; a leaf: its own extra): as
+   many extras as nodes (2 * |kvs| - 1).  The encoder builds the canonical HashmapAug of them (Spec/Tlb.v:
+   aug_cell: ahm_edge label, ahmn_leaf extra value / ahmn_fork left right extra), the root edge inline. *)
+Theorem C16_AccountBlock : forall ch v tb tr bits refs fuel,
+  wt_in ch spec_table spec_AccountBlock None v -> encode_ch ch spec_table spec_AccountBlock v = Ok (bits, refs) ->
+  (1473 <= fuel)%nat ->
+  run_type impl_table fuel "AccountBlock" [] (Cell (-1) (bits ++ tb) (refs ++ tr)) = Ok (v, mkS tb tr).
+Proof.
+  intros ch v tb tr bits refs fuel Hwt Henc Hfuel.
+  exact (C16_generic_ch "AccountBlock" spec_AccountBlock 1473 eq_refl eq_refl ch None v tb tr bits refs fuel
+           Hwt Henc I Hfuel).
+Qed.
+Print Assumptions C16_AccountBlock.
+
+Definition ex_Transaction_ref2 : pv :=
+  Eval vm_compute in with_cell ch_mix spec_Transaction (mk_Transaction PNone (PList []) ex_TransactionTickTock 0) [] [].
+(* two transactions (keys 5 and 9: a fork at the root, two leaves), three extras *)
+Definition ex_AccountBlock : pv :=
+  PObj "AccountBlock" [("account_addr"%string, PHex bytes32); ("state_update"%string, ex_HashUpdate);
+    ("transactions"%string,
+     PAugDict [(5, ex_Transaction_ref); (9, ex_Transaction_ref2)] [ex_cc 1; ex_cc_extra 2; ex_cc_extra 3])].
+(* a single transaction: the root is a leaf, extra and value are read from the cell of the block itself *)
+Definition ex_AccountBlock_single : pv :=
+  PObj "AccountBlock" [("account_addr"%string, PHex bytes32); ("state_update"%string, ex_HashUpdate);
+    ("transactions"%string, PAugDict [(350686, ex_Transaction_ref2)] [ex_cc_extra 2])].
+Example C16_AccountBlock_ex :
+  Forall (fun v =>
+    wt_in ch_mix spec_table spec_AccountBlock None v /\
+    match encode_ch ch_mix spec_table spec_AccountBlock v with
+    | Ok (bits, refs) =>
+        run_type impl_table 1473 "AccountBlock" [] (Cell (-1) (bits ++ [true; false]) (refs ++ [Cell (-1) [] []]))
+        = Ok (v, mkS [true; false] [Cell (-1) [] []])
+    | Err _ => False
+    end)
+    [ex_AccountBlock; ex_AccountBlock_single].
+Proof. repeat (apply Forall_cons; [split; [wt_tac|vm_compute; reflexivity]|]). apply Forall_nil. Qed.
+
+(* ---- ShardAccounts = HashmapAugE 256 ShardAccount DepthBalanceInfo: no theorem ----
+   load_hashmap_aug_e does not read the extra:Y that follows ahme_empty$0 / ahme_root$1 root:^(..): here an empty
+   dictionary, whose extra (depth_balance: 5 bits, Grams 0, no extra currencies) stays in the slice and is
+   returned, unparsed, as the only element of `extras`. *)
+Example ShardAccounts_extra_unread :
+  run_type impl_table 10 "ShardAccounts" [] (Cell (-1) ([false] ++ [false; false; false; true; true; false; false; false; false; false]) [])
+  = Ok (PAugDict [] [PSlice (mkS [false; false; false; true; true; false; false; false; false; false] [])],
+        mkS [false; false; false; true; true; false; false; false; false; false] []).
+Proof. vm_compute. reflexivity. Qed.
